@@ -125,6 +125,13 @@ func (g *G) declareLocal(t *Type) {
 		}
 	}
 	switch n := g.r.Intn(10); {
+	case t.K == KMap && g.r.Chance(1, 4):
+		// an empty map made with (or without) a size hint
+		if g.r.Bool() {
+			g.line("%s := make(%s, %d)", v.Name, t.str(g.pkg), g.r.Intn(12))
+		} else {
+			g.line("var %s %s = make(%s)", v.Name, t.str(g.pkg), t.str(g.pkg))
+		}
 	case n < 5 && t.K != KAny && !needsTypedDecl(t, init):
 		g.line("%s := %s", v.Name, g.typed(t, init, initConst))
 	case n < 8:
@@ -796,6 +803,9 @@ func (g *G) switchStmt() {
 		g.line("switch {")
 	}
 	nCases := g.r.Range(1, 4)
+	if g.r.Chance(1, 8) {
+		nCases = 0 // only a default clause, or no clause at all
+	}
 	defPos := g.r.Intn(nCases + 2) // nCases+1 = no default
 	used := map[string]bool{}
 	for i := 0; i <= nCases; i++ {
@@ -947,7 +957,20 @@ func (g *G) mapStmt() {
 	k := g.keyLeaf(m.T.Key)
 	g.noCalls = save
 	g.use("fmt")
-	switch g.r.Intn(6) {
+	switch g.r.Intn(7) {
+	case 6:
+		// a nil map can be read, measured, ranged over and deleted from
+		nm := g.name("nm")
+		g.line("var %s %s", nm, m.T.str(g.pkg))
+		g.line("delete(%s, %s)", nm, k)
+		g.line("for range %s {", nm)
+		g.line("\tfmt.Println(%q)", g.name("l"))
+		g.line("}")
+		if m.T.Elem.Printable() {
+			g.line("fmt.Println(%q, len(%s), %s[%s], %s == nil)", g.name("l"), nm, nm, k, nm)
+		} else {
+			g.line("fmt.Println(%q, len(%s), %s == nil)", g.name("l"), nm, nm)
+		}
 	case 0, 1:
 		e, _ := g.expr(m.T.Elem, 2)
 		g.line("%s[%s] = %s", name, k, e)
